@@ -4,6 +4,7 @@
 //   - (mode sched) import "sync" becomes the scheduler-aware vsync shim, every statement touching
 //     the guarded fields of a mutex-bearing struct or a mutable package-level variable is preceded
 //     by vsync.Access, and every package gets VerifResetGlobals().
+//
 // usage: vinstr <repo dir> <out dir> <shim dir> <mode: det|sched> [extra overlay json to merge]
 package main
 
@@ -13,6 +14,7 @@ import (
 	"fmt"
 	"go/ast"
 	"go/format"
+	"go/parser"
 	"go/token"
 	"go/types"
 	"os"
@@ -101,7 +103,18 @@ func main() {
 				pos := p.Fset.Position(rs.Pos())
 				site := fmt.Sprintf("%s:%d", filepath.Base(pos.Filename), pos.Line)
 				rangeSites = append(rangeSites, site+" range "+exprString(p.Fset, rs.X))
-				rewriteRange(rs, site, sites)
+				// a key type that is an interface does not satisfy `comparable` under the library's
+				// language version (go 1.19): the reflective variant with a type assertion
+				keyAssert := ""
+				if mt, ok := t.Underlying().(*types.Map); ok && types.IsInterface(mt.Key()) {
+					keyAssert = types.TypeString(mt.Key(), func(other *types.Package) string {
+						if other == p.Types {
+							return ""
+						}
+						return other.Name()
+					})
+				}
+				rewriteRange(rs, site, sites, keyAssert)
 				sites++
 				changed = true
 				return true
@@ -219,9 +232,41 @@ func exprString(fset *token.FileSet, e ast.Expr) string {
 
 // rewriteRange turns `for K, V := range M {B}` into
 // `for _, vdetKeyN := range vdet.Order(M, site) { K := vdetKeyN; V := M[vdetKeyN]; B }`.
-func rewriteRange(rs *ast.RangeStmt, site string, n int) {
+func rewriteRange(rs *ast.RangeStmt, site string, n int, keyAssert string) {
 	kn := ast.NewIdent(fmt.Sprintf("vdetKey%d", n))
 	m := rs.X
+	if keyAssert != "" {
+		// for _, vdetAnyN := range vdet.OrderAny(M, site) { vdetKeyN := vdetAnyN.(KeyType); K := vdetKeyN; V := M[vdetKeyN]; B }
+		an := ast.NewIdent(fmt.Sprintf("vdetAny%d", n))
+		kt, err := parser.ParseExpr(keyAssert)
+		if err != nil {
+			fail("%s: cannot spell the key type %s", site, keyAssert)
+		}
+		pre := []ast.Stmt{&ast.AssignStmt{Lhs: []ast.Expr{kn}, Tok: token.DEFINE, Rhs: []ast.Expr{&ast.TypeAssertExpr{X: an, Type: kt}}}}
+		tok := rs.Tok
+		if tok == token.ILLEGAL {
+			tok = token.DEFINE
+		}
+		used := false
+		if id, ok := rs.Key.(*ast.Ident); rs.Key != nil && !(ok && id.Name == "_") {
+			pre = append(pre, &ast.AssignStmt{Lhs: []ast.Expr{rs.Key}, Tok: tok, Rhs: []ast.Expr{kn}})
+			used = true
+		}
+		if id, ok := rs.Value.(*ast.Ident); rs.Value != nil && !(ok && id.Name == "_") {
+			pre = append(pre, &ast.AssignStmt{Lhs: []ast.Expr{rs.Value}, Tok: tok, Rhs: []ast.Expr{&ast.IndexExpr{X: m, Index: kn}}})
+			used = true
+		}
+		if !used {
+			pre = append(pre, &ast.AssignStmt{Lhs: []ast.Expr{ast.NewIdent("_")}, Tok: token.ASSIGN, Rhs: []ast.Expr{kn}})
+		}
+		rs.Key = ast.NewIdent("_")
+		rs.Value = an
+		rs.Tok = token.DEFINE
+		rs.X = &ast.CallExpr{Fun: &ast.SelectorExpr{X: ast.NewIdent("vdet"), Sel: ast.NewIdent("OrderAny")},
+			Args: []ast.Expr{m, &ast.BasicLit{Kind: token.STRING, Value: fmt.Sprintf("%q", site)}}}
+		rs.Body.List = append(pre, rs.Body.List...)
+		return
+	}
 	var pre []ast.Stmt
 	tok := rs.Tok
 	if tok == token.ILLEGAL {
